@@ -1,6 +1,7 @@
 #!/bin/bash
 # try_seed.sh <seeded/<name>> <check> [<check> ...] : apply the stored patch to /repo, run the quick checks, undo
 cd /verif
+export VERIF_SCRATCH_EVIDENCE=/tmp/verif_scratch_evidence
 d=$1; shift
 git -C /repo status --short | grep -q . && { echo "REPO DIRTY"; exit 2; }
 git -C /repo apply "$(realpath $d/patch.diff)" || { echo "apply failed"; exit 2; }
